@@ -51,6 +51,9 @@ type Case struct {
 	// behind by earlier loads (a package-level cache, say) reproduces in a fresh process. Minimisation drops
 	// whatever part of it is not needed.
 	Prelude []Case `json:"prelude,omitempty"`
+	// Sidecars: other files the medium holds next to the model file (external tensor data); only the file reader
+	// shows them.
+	Sidecars map[string][]byte `json:"sidecars,omitempty"`
 	// Env: environment variables (of those the code under test reads) set around this case.
 	Env map[string]string `json:"env,omitempty"`
 	// Clock: simulated time moved forward by this many nanoseconds before the load (and before its k-th follow-up
@@ -146,6 +149,24 @@ func load(c *Case, env *Env) (m *gonnx.Model, o outcome) {
 		}
 	case "file":
 		p := filepath.Join(env.Scratch, fmt.Sprintf("m-%d.onnx", os.Getpid()))
+		if len(c.Sidecars) > 0 {
+			dir := filepath.Join(env.Scratch, fmt.Sprintf("d-%d", os.Getpid()))
+			os.RemoveAll(dir)
+			if err := os.MkdirAll(dir, 0o755); err != nil {
+				panic(err)
+			}
+			defer os.RemoveAll(dir)
+			for name, data := range c.Sidecars {
+				if name == "" || strings.Contains(name, "..") || filepath.IsAbs(name) {
+					continue // the medium only holds files inside the model's directory
+				}
+				sp := filepath.Join(dir, name)
+				os.MkdirAll(filepath.Dir(sp), 0o755)
+				os.WriteFile(sp, data, 0o644)
+				os.Chtimes(sp, fixedMtime, fixedMtime)
+			}
+			p = filepath.Join(dir, "model.onnx")
+		}
 		if err := os.WriteFile(p, c.Data, 0o644); err != nil {
 			panic(err)
 		}
@@ -742,9 +763,18 @@ func check18(c *Case, env *Env) []verdict {
 		return nil
 	}
 	// position of the first node whose operator type is outside the implemented set
+	// (an operator type the MODEL defines as a local function is not "outside the implemented set" for a tree that
+	// supports functions; the pinned tree does not, a changed tree may: such nodes are only watched for crashes)
+	local := map[string]bool{}
+	for _, f := range mp.GetFunctions() {
+		local[f.GetName()] = true
+	}
 	first := -1
 	for i, n := range nodes {
 		if !implemented[n.GetOpType()] {
+			if local[n.GetOpType()] {
+				break
+			}
 			first = i
 			break
 		}
